@@ -1,0 +1,14 @@
+//go:build verif
+
+package tss
+
+// VerifHook, when set, is called at the suspension points between the critical sections of
+// BaseStart / BaseUpdate. It exists only in builds with the `verif` tag and is used by external
+// runtime-verification harnesses to inject scheduling yields and to record lock acquisition order.
+var VerifHook func(point string, p Party, m ParsedMessage)
+
+func verifPoint(point string, p Party, m ParsedMessage) {
+	if h := VerifHook; h != nil {
+		h(point, p, m)
+	}
+}
